@@ -148,6 +148,13 @@ func (s *Server) proxyHTTPRoute(c *gin.Context) {
 	}
 
 	s.httpProxy.ServeHTTP(c.Writer, c.Request, endpointID)
+
+	// This handler is registered as the router's 'no route' handler, so gin
+	// writes its default 404 body after the handler returns unless the
+	// response has been written. The reverse proxy only flushes the header
+	// lazily, so an upstream 404 with an empty body could otherwise have
+	// "404 page not found" appended.
+	c.Writer.WriteHeaderNow()
 }
 
 func (s *Server) proxyTCPRoute(c *gin.Context) {
